@@ -151,6 +151,9 @@ def gen_rule(rng, block, opcode, subblocks):
     pad = (-total) % 8
     if pad:
         prod.append(numlit("0b" + "0" * pad))
+    if nops == 1 and operands and operands[0][0] == "typed" and operands[0][2] % 8 == 0 and not pad and rng.random() < 0.3:
+        # no opcode: the production is the bare (possibly negative, sized) parameter
+        prod = [var(pnames[0])]
     rule = {"block": block, "sub": False, "pat": pat, "prod": concat(prod)}
     return rule, operands
 
@@ -1242,6 +1245,10 @@ def gen_macro_program(rng):
                     "t": var(params[0]), "f": {"k": "num", "text": ["8"]}}
         fns.append({"name": name, "params": params, "body": body})
         fnames.append(name)
+    if rng.random() < 0.2:
+        # recursion that ends: nesting depths around the documented limit
+        fns.append({"name": "cnt", "params": ["n"], "body": {"k": "tern", "c": _cmp("eq", var("n"), numlit("0")), "t": numlit("0"),
+                                                             "f": _cmp("add", numlit("1"), {"k": "call", "f": "cnt", "args": [_cmp("sub", var("n"), numlit("1"))]})}})
     # a rule whose production calls a function
     if fnames and rng.random() < 0.8:
         f = rng.choice(fns)
@@ -1322,14 +1329,30 @@ def gen_macro_program(rng):
         elif c < 0.8 and base:
             rule, ops = rng.choice(base)
             items.append(_item(k="instr", toks=instantiate(rng, rule, ops, labels, [])))
-        elif c < 0.9 and fnames:
+        elif c < 0.9 and fns:
             f = rng.choice(fns)
-            items.append(_item(k="data", w=8, es=[{"k": "call", "f": f["name"],
-                                                   "args": [{"k": "num", "text": list(str(rng.randrange(0, 9)))} for _ in f["params"]]}]))
+            if f["name"] == "cnt":
+                items.append(_item(k="data", w=8, es=[{"k": "call", "f": "cnt", "args": [numlit(str(rng.choice([3, 22, 23, 24, 25, 26])))]}]))
+            else:
+                items.append(_item(k="data", w=8, es=[{"k": "call", "f": f["name"],
+                                                       "args": [{"k": "num", "text": list(str(rng.randrange(0, 9)))} for _ in f["params"]]}]))
         else:
             items.append(_item(k="data", w=8, es=[{"k": "num", "text": list(str(rng.randrange(0, 200)))}]))
     items.append(_item(k="label", lvl=0, name="lab1"))
     return {"rules": rules, "items": items, "fns": fns}
+
+
+def depth_boundary_programs():
+    """user-function nesting around the documented depth limit, called from data and from a rule's production"""
+    cnt = {"name": "cnt", "params": ["n"], "body": {"k": "tern", "c": _cmp("eq", var("n"), numlit("0")), "t": numlit("0"),
+                                                    "f": _cmp("add", numlit("1"), {"k": "call", "f": "cnt", "args": [_cmp("sub", var("n"), numlit("1"))]})}}
+    rule = {"block": "cpu", "sub": False, "pat": [_lit("f"), {"p": "ws"}, _par("a")],
+            "prod": concat([numlit("0x10"), {"k": "sshort", "e": {"k": "call", "f": "cnt", "args": [var("a")]}, "n": numlit("8")}])}
+    out = []
+    for k in range(19, 29):
+        out.append({"rules": [], "items": [_item(k="data", w=8, es=[{"k": "call", "f": "cnt", "args": [numlit(str(k))]}])], "fns": [cnt]})
+        out.append({"rules": [rule], "items": [_item(k="instr", toks=[tok("id", "f", True), tok("num", "", True, list(str(k)))])], "fns": [cnt]})
+    return out
 
 
 def render_macro_program(P):
